@@ -1,17 +1,17 @@
 package parsim
 
 import (
+	"bufio"
 	"bytes"
 	"crypto/sha256"
 	"encoding/binary"
 	"encoding/json"
 	"fmt"
+	"io"
 	"os"
 	"os/exec"
-	"path/filepath"
 	"runtime"
 	"sort"
-	"strconv"
 	"strings"
 	"sync"
 	"testing"
@@ -50,7 +50,7 @@ type c18 struct{}
 
 func (c18) Name() string { return "parsim" }
 
-const c18Stride = 400
+const c18Stride = 100
 
 var c18NCPU = []int64{1, 2, 3, 4, 5, 6, 7, 8, 10, 12, 16}
 
@@ -244,6 +244,29 @@ func (e c18) Execute(t *testing.T, ctx *simrt.Ctx) *simrt.Violation {
 		ctx.CurOp = i
 		ctx.Step()
 		var v *simrt.Violation
+		p := func() (p interface{}) {
+			defer func() {
+				if p = recover(); p != nil {
+					if _, harness := p.(simrt.HarnessError); harness {
+						panic(p)
+					}
+				}
+			}()
+			v = c18Op(ctx, op, workers)
+			return nil
+		}()
+		if p != nil {
+			return ctx.Violate("merkle-panicked", op.K, "%s %v panicked: %v", op.K, op.I, p)
+		}
+		if v != nil {
+			return v
+		}
+	}
+	return nil
+}
+
+func c18Op(ctx *simrt.Ctx, op *simrt.Op, workers int) (v *simrt.Violation) {
+	{
 		switch op.K {
 		case "root":
 			v = c18Root(ctx, int(op.Int(0)), op.Int(1), workers)
@@ -254,11 +277,8 @@ func (e c18) Execute(t *testing.T, ctx *simrt.Ctx) *simrt.Violation {
 		case "dup":
 			v = c18Dup(ctx, int(op.Int(0)), int(op.Int(1)), op.Int(2), int(op.Int(3)))
 		}
-		if v != nil {
-			return v
-		}
 	}
-	return nil
+	return v
 }
 
 func c18Root(ctx *simrt.Ctx, n int, seed int64, workers int) *simrt.Violation {
@@ -547,30 +567,25 @@ func c18Dup(ctx *simrt.Ctx, lvl, m int, seed int64, variant int) *simrt.Violatio
 }
 
 // ---------------------------------------------------------------------------
-// child process pinned to ncpu CPUs
+// child processes pinned to ncpu CPUs
+//
+// A worker keeps one long-lived child per worker count (starting the test binary
+// costs more than a scenario). The child is this same test binary running
+// TestParsimChild (engine_parsim_test.go) -> ChildServe: it reads scenarios from
+// stdin, executes them in-process (its runtime.NumCPU() is the size of the
+// affinity mask it was started under) and writes results to fd 3.
 
-type childLine struct {
-	Type   string        `json:"type"`
-	Result *simrt.Result `json:"result,omitempty"`
-	Msg    string        `json:"msg,omitempty"`
+type childProc struct {
+	cmd  *exec.Cmd
+	in   io.WriteCloser
+	out  *bufio.Reader
+	have int // CPUs actually granted
+	errb *bytes.Buffer
 }
 
-var c18ChildSeq int
+var children = map[int]*childProc{}
 
-func c18RunChild(ctx *simrt.Ctx, ncpu int) *simrt.Violation {
-	dir := os.Getenv("VERIF_SCRATCH_DIR")
-	if dir == "" {
-		dir = os.TempDir()
-	}
-	c18ChildSeq++
-	base := filepath.Join(dir, fmt.Sprintf("c18child-%d-%d", os.Getpid(), c18ChildSeq))
-	scf, outf := base+".json", base+".out"
-	defer os.Remove(scf)
-	defer os.Remove(outf)
-	child := ctx.Sc.Clone()
-	child.Violation = nil
-	simrt.Must(simrt.WriteReplay(scf, child), "write child scenario")
-
+func startChild(ncpu int) *childProc {
 	var cur unix.CPUSet
 	simrt.Must(unix.SchedGetaffinity(0, &cur), "sched_getaffinity")
 	var want unix.CPUSet
@@ -584,24 +599,12 @@ func c18RunChild(ctx *simrt.Ctx, ncpu int) *simrt.Violation {
 	// which CPUs does not matter for the result, only how many: spread the
 	// children of concurrently running workers over the machine
 	for k := 0; k < len(avail) && have < ncpu; k++ {
-		want.Set(avail[(os.Getpid()+k)%len(avail)])
+		want.Set(avail[(os.Getpid()+ncpu+k)%len(avail)])
 		have++
-	}
-	if have < ncpu {
-		// fewer CPUs available than asked for: run with what there is
-		ctx.Probe("ncpu_clamped_to_host")
 	}
 	self, err := os.Executable()
 	simrt.Must(err, "os.Executable")
-	cmd := exec.Command(self, "-test.run", "^TestWorker$", "-test.timeout", "0", "-test.count", "1")
-	// more Ps than pinned CPUs only makes the child's scheduler spin
-	gmp := int(ctx.Sc.Knob("gmp", 1))
-	if gmp > have {
-		gmp = have
-	}
-	if gmp < 1 {
-		gmp = 1
-	}
+	cmd := exec.Command(self, "-test.run", "^TestParsimChild$", "-test.timeout", "0", "-test.count", "1")
 	env := []string{}
 	for _, kv := range os.Environ() {
 		if strings.HasPrefix(kv, "VERIF_") || strings.HasPrefix(kv, "GOMAXPROCS=") {
@@ -609,12 +612,14 @@ func c18RunChild(ctx *simrt.Ctx, ncpu int) *simrt.Violation {
 		}
 		env = append(env, kv)
 	}
-	env = append(env, "VERIF_PROP=C18", "VERIF_REPLAY="+scf, "VERIF_OUT="+outf, "VERIF_PARSIM_CHILD=1",
-		"VERIF_SCRATCH_DIR="+dir, "GOMAXPROCS="+strconv.Itoa(gmp))
-	cmd.Env = env
-	cmd.Dir = dir
-	var stderr bytes.Buffer
-	cmd.Stdout, cmd.Stderr = &stderr, &stderr
+	cmd.Env = append(env, "VERIF_PARSIM_CHILD=1", "VERIF_SCRATCH_DIR="+os.Getenv("VERIF_SCRATCH_DIR"))
+	stdin, err := cmd.StdinPipe()
+	simrt.Must(err, "stdin pipe")
+	pr, pw, err := os.Pipe()
+	simrt.Must(err, "result pipe")
+	cmd.ExtraFiles = []*os.File{pw} // fd 3 in the child
+	errb := &bytes.Buffer{}
+	cmd.Stdout, cmd.Stderr = errb, errb
 	// the affinity mask is inherited from the forking thread
 	runtime.LockOSThread()
 	simrt.Must(unix.SchedSetaffinity(0, &want), "sched_setaffinity")
@@ -622,20 +627,79 @@ func c18RunChild(ctx *simrt.Ctx, ncpu int) *simrt.Violation {
 	simrt.Must(unix.SchedSetaffinity(0, &cur), "restore affinity")
 	runtime.UnlockOSThread()
 	simrt.Must(err, "start child worker")
-	werr := cmd.Wait()
-	data, _ := os.ReadFile(outf)
-	var res *simrt.Result
-	for _, ln := range bytes.Split(data, []byte("\n")) {
-		var l childLine
-		if json.Unmarshal(ln, &l) == nil && l.Type == "result" && l.Result != nil {
-			res = l.Result
-		} else if l.Type == "harness_error" {
-			simrt.Failf("C18 child (ncpu=%d): %s", ncpu, l.Msg)
+	pw.Close()
+	return &childProc{cmd: cmd, in: stdin, out: bufio.NewReaderSize(pr, 1<<20), have: have, errb: errb}
+}
+
+type childReply struct {
+	NumCPU int           `json:"numcpu"`
+	Result *simrt.Result `json:"result"`
+	Err    string        `json:"err,omitempty"`
+}
+
+// ChildServe is the body of the child process.
+func ChildServe(t *testing.T, in io.Reader, out io.Writer) {
+	rd := bufio.NewReaderSize(in, 1<<20)
+	for {
+		line, err := rd.ReadBytes('\n')
+		if len(line) > 1 {
+			var sc simrt.Scenario
+			rep := childReply{NumCPU: runtime.NumCPU()}
+			if e := json.Unmarshal(line, &sc); e != nil {
+				rep.Err = "bad scenario: " + e.Error()
+			} else if info := simrt.Lookup(sc.Property); info == nil {
+				rep.Err = "unknown property " + sc.Property
+			} else {
+				func() {
+					defer func() {
+						if r := recover(); r != nil {
+							rep.Err = fmt.Sprint(r)
+						}
+					}()
+					rep.Result, _ = simrt.RunOnce(t, info, &sc, false)
+				}()
+			}
+			b, _ := json.Marshal(rep)
+			out.Write(append(b, '\n'))
+		}
+		if err != nil {
+			return
 		}
 	}
-	if res == nil {
-		simrt.Failf("C18 child (ncpu=%d) produced no result: %v\n%s", ncpu, werr, tail(stderr.String(), 2000))
+}
+
+func c18RunChild(ctx *simrt.Ctx, ncpu int) *simrt.Violation {
+	ch := children[ncpu]
+	if ch == nil {
+		ch = startChild(ncpu)
+		children[ncpu] = ch
 	}
+	if ch.have < ncpu {
+		ctx.Probe("ncpu_clamped_to_host")
+	}
+	child := ctx.Sc.Clone()
+	child.Violation = nil
+	b, err := json.Marshal(child)
+	simrt.Must(err, "marshal scenario")
+	_, err = ch.in.Write(append(b, '\n'))
+	if err != nil {
+		delete(children, ncpu)
+		simrt.Failf("C18 child (ncpu=%d): write: %v\n%s", ncpu, err, tail(ch.errb.String(), 2000))
+	}
+	line, err := ch.out.ReadBytes('\n')
+	if err != nil {
+		delete(children, ncpu)
+		simrt.Failf("C18 child (ncpu=%d): read: %v\n%s", ncpu, err, tail(ch.errb.String(), 2000))
+	}
+	var rep childReply
+	simrt.Must(json.Unmarshal(line, &rep), "child reply")
+	if rep.Err != "" || rep.Result == nil {
+		simrt.Failf("C18 child (ncpu=%d): %s", ncpu, rep.Err)
+	}
+	if rep.NumCPU != ch.have {
+		simrt.Failf("C18 child was pinned to %d CPUs but its runtime.NumCPU() is %d", ch.have, rep.NumCPU)
+	}
+	res := rep.Result
 	names := make([]string, 0, len(res.Probes))
 	for k := range res.Probes {
 		names = append(names, k)
@@ -649,7 +713,7 @@ func c18RunChild(ctx *simrt.Ctx, ncpu int) *simrt.Violation {
 	ctx.Probe("child_process_runs")
 	if v := res.Violation; v != nil {
 		ctx.CurOp = v.OpIndex
-		return ctx.Violate(v.Class, v.Sig, "[child pinned to %d CPUs] %s", ncpu, v.Detail)
+		return ctx.Violate(v.Class, v.Sig, "[child with runtime.NumCPU()=%d] %s", rep.NumCPU, v.Detail)
 	}
 	return nil
 }
